@@ -871,3 +871,29 @@ Lemma source_round2 :
   Gen.C18.endblocker_defers_recover = true /\
   Gen.C18.endblocker_calls = ["createBatch"; "attestationTally"; "pruneAttestations"]%string.
 Proof. vm_compute. repeat split; reflexivity. Qed.
+
+(** ================= 7. a premise that cannot be dropped ================= *)
+(** [op_wf] asks that governance does not name the module account as a funder.  Nothing in the
+    code refuses it, and without it clause 1 fails: a sale is then paid by the escrow to itself,
+    a licence appears and the escrow does not grow; once the first licensee has activated, the
+    second cannot.  (Replayed on the real keepers: harness/corpus/C18/08_funder_is_the_module_account.json.) *)
+Definition ex_escrow_funder_ops : list op :=
+  [ SetContracts [(1, 11)]; SetFeegranter 2; SetFunders [escrow];
+    AddLicence (1, false) (3, false) 0 20000000 3;
+    Sale 1 11 (4, false) 7 ].
+
+Lemma funder_premise_refuted :
+  inv ex_s0 /\
+  (forall o, In o ex_escrow_funder_ops -> op_wf o \/ o = SetFunders [escrow]) /\
+  let s := run ex_s0 ex_escrow_funder_ops in
+  map snd (trace ex_s0 ex_escrow_funder_ops) = [Ok; Ok; Ok; Ok; Ok] /\
+  bal s escrow bond = 20000000 /\ lic_sum bond (lics s) = 27000000 /\ gifts s bond = 0 /\
+  let s' := run s [Register (3, false)] in
+  bal s' escrow bond = 0 /\ snd (step s' (Register (4, false))) = Err EInsufficientFunds.
+Proof.
+  split; [exact ex_inv|]. split.
+  - intros o Hin. cbn in Hin.
+    repeat (destruct Hin as [<-|Hin]; [first [right; reflexivity | left; cbn; first [exact I | discriminate]]|]).
+    destruct Hin.
+  - vm_compute. repeat split; reflexivity.
+Qed.
